@@ -29,6 +29,39 @@ def type_arg(bv, bi, idx):
     return bv.crate.types[s]["s"] if isinstance(s, int) else str(s)
 
 
+def display_name(bv, t):
+    """Short name of a call term, with the generic instantiation where it carries meaning (parse::<u32>, Sha256::digest,
+    <T>::try_from), looked up in the body `bv` the term was traced in."""
+    callee = lib.norm(t[1])
+    name = callee.split("::")[-1]
+    if t[3] is not None and isinstance(t[3], int) and t[3] < len(bv.blocks) and bv.blocks[t[3]]["t"].get("k") == "call" and lib.norm(bv.blocks[t[3]]["t"].get("callee") or "") == callee:
+        tt = bv.blocks[t[3]]["t"]
+        if name in SHOW_GENERIC and SHOW_GENERIC[name] is not None:
+            ta = type_arg(bv, t[3], SHOW_GENERIC[name])
+            if ta:
+                name += "::<%s>" % lib.norm(ta)
+        rs = lib.norm(tt.get("resolved") or "")
+        if name == "try_from" and " for " in rs:
+            name = rs.split(" for ")[-1].split(">")[0].strip() + "::try_from"
+        if callee.endswith("Digest::digest") or callee.endswith("Digest::new") or callee.endswith("Digest::finalize") or callee.endswith("Digest::update"):
+            st = type_arg(bv, t[3], 0)
+            if st:
+                name = "%s::%s" % (hash_name(st), name)
+    return name
+
+
+def annotate_names(bv, t):
+    """Fix the display names of the call terms of `t` while the body they were traced in is known (before the term is
+    substituted into another body's term)."""
+    if isinstance(t, list):
+        return [annotate_names(bv, x) for x in t]
+    if not isinstance(t, tuple):
+        return t
+    if t and t[0] == "call" and len(t) == 4 and isinstance(t[2], list):
+        return ("call", t[1], [annotate_names(bv, a) for a in t[2]], t[3], display_name(bv, t))
+    return tuple(annotate_names(bv, x) if isinstance(x, (tuple, list)) else x for x in t)
+
+
 def render(bv, t, world=None, names=None, depth=0, transparent=TRANSPARENT):
     names = names or {}
     if depth > 40:
@@ -76,21 +109,7 @@ def render(bv, t, world=None, names=None, depth=0, transparent=TRANSPARENT):
             return r(t[2][0])
         if callee in transparent and t[2]:
             return r(t[2][0])
-        name = callee.split("::")[-1]
-        res = ""
-        if t[3] is not None and t[3] < len(bv.blocks) and bv.blocks[t[3]]["t"].get("k") == "call" and lib.norm(bv.blocks[t[3]]["t"].get("callee") or "") == callee:
-            tt = bv.blocks[t[3]]["t"]
-            if name in SHOW_GENERIC and SHOW_GENERIC[name] is not None:
-                ta = type_arg(bv, t[3], SHOW_GENERIC[name])
-                if ta:
-                    name += "::<%s>" % lib.norm(ta)
-            rs = lib.norm(tt.get("resolved") or "")
-            if name == "try_from" and " for " in rs:
-                name = rs.split(" for ")[-1].split(">")[0].strip() + "::try_from"
-            if callee.endswith("Digest::digest") or callee.endswith("Digest::new") or callee.endswith("Digest::finalize") or callee.endswith("Digest::update"):
-                st = type_arg(bv, t[3], 0)
-                if st:
-                    name = "%s::%s" % (hash_name(st), name)
+        name = t[4] if len(t) > 4 and isinstance(t[4], str) else display_name(bv, t)
         return "%s(%s)" % (name, ", ".join(r(a) for a in t[2]))
     if k == "binop":
         return "%s(%s, %s)" % (t[1], r(t[2]), r(t[3]))
